@@ -14,6 +14,7 @@ inductive Call where
   | makeData | send | flush | close | connect | sendDirect
   | queuePut | queueGetTimeout | queueGetNoWait | queueGetCapacity | queueSetCapacity
   | dial | newWriter | connClose | setDeadline | bufWrite | bufFlush
+  | bufReset                             -- `wr.Reset(…)`: clears bufio's sticky error and drops what is buffered
   deriving DecidableEq, Repr
 
 structure Facts where
@@ -49,6 +50,9 @@ structure Facts where
   /-- functions that take from the queue, and the functions started with `go` -/
   queueConsumers : List String
   goroutines : List String
+  /-- `go` statements inside util/queue/RequestQueue.go: the queue itself starts no goroutine, so the
+      only takers are its callers -/
+  queueGoStmts : Nat
   /-- makeData: `if o.License != "" { hash(o.License) } else { hash(this.License) }`, header bytes -/
   licenseOverrideWhenNonEmpty : Bool
   headerSrc : Nat
@@ -77,6 +81,7 @@ def assumed : Facts :=
     flush := [.bufFlush]
     queueConsumers := ["SendAndClear", "process"]
     goroutines := ["process"]
+    queueGoStmts := 0
     licenseOverrideWhenNonEmpty := true
     headerSrc := 10
     headerVer := 0 }
